@@ -46,7 +46,7 @@ SPEC = dict(
          "{child, a/, b/a/, s, p:r} x one value symbol per carrier from the per-type alphabet {'1','01','1.0',' 1 ','2', ... lexical variants (CDATA, character "
          "reference, comment inside the value, big integers, time zones, INF/NaN, prefix rebinding), absent, xsi:nil, field matching two nodes}.  Length bounds "
          "(quick/thorough): value space 3/4 (keyref: 2/3 over the 5-value core alphabet, 3/4 over the 3-value alphabet, 2/2 over the extended alphabet), extended "
-         "alphabets 2/3, path space 2/3 for one field and 1/2 for two fields, recursive 3/4, ancestor keyref 3/4, document-element scope 2/3; growth: every list "
+         "alphabets 2/3, path space 2/3 for one field and 1/2 for two fields, recursive 3/4, ancestor keyref 3/4 with two sibling key scopes and 4/5 with four sibling key scopes (every distribution of the keys over the scopes, references before and after them), document-element scope 2/3; growth: every list "
          "<= 1 plus n in {1,50,(81,)500} unrelated distinct tuples before/after/around.  Every document is validated by {IGXMLScanner,SGXMLScanner} x {SAX2,DOM} "
          "(lists of the maximal length of a batched definition: IG/SAX2 and SG/DOM); errors are bucketed per scope instance by line and classified by message. "
          "Oracle: own implementation of Structures 3.11.4/3.11.5 (target/qualified node sets, key-sequences, node tables with propagation and conflict removal) over "
